@@ -179,8 +179,8 @@ def do_replay(path):
 def known_match(known, prop, kind, name, args):
     """Return the known-finding entry whose carve-out covers this concrete failing input."""
     for k in known:
-        if k.get("status") != "known" or k["property"] != prop or k["name"] != name:
-            continue
+        if k.get("status") != "known" or k["name"] != name:
+            continue      # a finding recorded under one property also covers the same function in another property's cone
         try:
             g = dict(loader.HELPER_GLOBALS)
             g.update(args)
@@ -198,7 +198,7 @@ def decide_item(prop, kind, name, opts, tier, seed, known):
            "obl": 0, "dis": 0, "trusted": set(), "by_backend": {}, "samples": [], "bounded": None, "item": {"kind": kind, "name": name}}
     item = out["item"]
     pr = None
-    my_known = [k for k in known if k.get("status") == "known" and k["property"] == prop and k["name"] == name]
+    my_known = [k for k in known if k.get("status") == "known" and k["name"] == name]
     if not opts.get("bounded_only"):
         try:
             pr = prove.prove_item(kind, name, tier, seed, known=my_known)
@@ -298,7 +298,7 @@ def run_property(prop, tier, seed):
         ev_items.append(o["item"])
     # known findings: replay each witness natively; print KNOWN-FINDING only if it still fails
     for k in known:
-        if k.get("status") == "known" and k["property"] == prop:
+        if k.get("status") == "known" and (k["property"] == prop or k["id"] in known_hits):
             try:
                 args = {a: untag(v) for a, v in k["witness"].items()}
                 out = runtime.check_call(k["name"], args) if k["kind"] == "contract" else runtime.run_lemma(k["name"], args)
@@ -309,7 +309,7 @@ def run_property(prop, tier, seed):
             except Exception as e:
                 problems.append(f"known finding {k['id']} witness not replayable: {e}")
     for k in known_hits.values():
-        print(f"KNOWN-FINDING: property={prop} {k['what_fails']}")
+        print(f"KNOWN-FINDING: property={prop} {k['what_fails']}" + ("" if k["property"] == prop else f" (recorded under {k['property']})"))
     wall = time.time() - t0
     n_proved = sum(1 for it in ev_items if it.get("status") == "proved")
     level = "proof" if (total_obl > 0 and total_dis == total_obl) else "other"
